@@ -74,6 +74,7 @@ struct Inner {
     seqs: HashMap<&'static str, u64>,
     task_ids: Vec<String>,
     task_hits: HashMap<(usize, &'static str), u64>,
+    note_cb: Option<Arc<dyn Fn(&'static str, &str) + Send + Sync>>,
 }
 
 pub struct SimCtrl {
@@ -133,6 +134,7 @@ impl SimCtrl {
                 seqs: HashMap::new(),
                 task_ids: Vec::new(),
                 task_hits: HashMap::new(),
+                note_cb: None,
             }),
             sched_cv: Condvar::new(),
         }
@@ -159,6 +161,7 @@ impl SimCtrl {
         g.seqs.clear();
         g.task_ids.clear();
         g.task_hits.clear();
+        g.note_cb = None;
         // drop finished / stale actors to keep the table small
         let epoch = g.epoch;
         for a in g.actors.iter_mut() {
@@ -199,6 +202,7 @@ impl SimCtrl {
         g.aparked.clear();
         g.pending = 0;
         g.running = 0;
+        g.note_cb = None;
     }
 
     pub fn set_pass_sites(&self, pass_sites: &[&'static str]) {
@@ -217,6 +221,11 @@ impl SimCtrl {
             .filter(|a| a.epoch == g.epoch && a.kind == "cmd")
             .filter(|a| matches!(a.state, AState::Parked { .. }))
             .count()
+    }
+
+    /// Callback run synchronously on the thread that reaches a `verif::note` site.
+    pub fn set_note_cb(&self, cb: Option<Arc<dyn Fn(&'static str, &str) + Send + Sync>>) {
+        self.lock().note_cb = cb;
     }
 
     pub fn set_now(&self, ms: u64) {
@@ -621,6 +630,19 @@ impl xs::verif::Controller for SimCtrl {
         let c = g.seqs.entry(name).or_insert(0);
         *c += 1;
         *c
+    }
+
+    fn note(&self, site: &'static str, text: &str) {
+        let cb = {
+            let g = self.lock();
+            if !g.active {
+                return;
+            }
+            g.note_cb.clone()
+        };
+        if let Some(cb) = cb {
+            cb(site, text);
+        }
     }
 
     fn knob(&self, name: &'static str, default: usize) -> usize {
